@@ -69,13 +69,11 @@ ExtRec(M, HC(_, _), Zero, ht, pos, c) ==
                       ELSE [c |-> r.c, val |-> HC(l.val, r.val)]
                     ELSE [c |-> l.c, val |-> HC(l.val, l.val)]
 
-\* Growth: a PartialBlock is a SINGLE-USE object (named deviation NotReentrant).  ExtractMatches does not
-\* reset its cursors, so a second call on the same object continues where the first one stopped: after a
-\* successful extraction every hash is consumed and at most seven padding bits are left, hence the second
-\* call always fails, flags the tree as bad and leaves the match list as it was.
-SecondExtract(M, first) ==
-  IF ~first.ok THEN [defined |-> FALSE, ok |-> FALSE, bad |-> FALSE]
-  ELSE [defined |-> TRUE, ok |-> FALSE, bad |-> TRUE]
+\* Growth X02: a PartialBlock can be asked again.  Until fix 8a (see known_findings.json, C12-second-extraction)
+\* ExtractMatches did not reset its cursors, so a second call continued where the first had stopped (after a success
+\* it failed; after a refusal for an unused hash it could SUCCEED with that hash as the root -- a C12 violation).
+\* Every call now starts from the beginning of the message: the second answer is the first answer.
+SecondExtract(M, first) == [defined |-> TRUE, ok |-> first.ok, bad |-> first.bad]
 
 ExtFail(why) == [ok |-> FALSE, why |-> why, root |-> <<>>, m |-> <<>>]
 \* M = [n, hashes, bits]; toomany = the declared count exceeds the limit
